@@ -155,6 +155,20 @@ var stackKeyClass = map[string]string{
 	"client/visitor.XTCPVisitor.handleConn":          "secret", // ↔ client XTCPProxy → HandleTCPWorkConnection(secret)
 }
 
+// stackClassOf looks a builder up in the pairing table by identity: the table's symbolic names are resolved through the
+// program, so an entry follows its function when that is renamed (see renames.go).
+func stackClassOf(p *engine.Prog, f *ssa.Function) (string, bool) {
+	if cls, ok := stackKeyClass[p.FuncName(f)]; ok {
+		return cls, true
+	}
+	for sym, cls := range stackKeyClass {
+		if g := p.Fn(sym); g != nil && g == f {
+			return cls, true
+		}
+	}
+	return "", false
+}
+
 func checkStacks(c *engine.Ctx, rule string) {
 	p := c.P
 	c.Rule(rule, "every function that builds a tunnel wrapper stack: both layers present; encryption applied exactly when UseEncryption and compression exactly when UseCompression; encryption sits next to the wire with compression above it; every later consumer of the wire stream (limiter, join, hand-off) receives a stream that contains every layer already applied; the limiter's two halves wrap the same stream with the same bucket; the key class (token / secret) matches the peer's")
@@ -386,7 +400,7 @@ func checkStacks(c *engine.Ctx, rule string) {
 			c.Hold(name+">consumers", f.Pos(), q.Steps, []string{fmt.Sprintf("%d consumer uses of the wire stream examined on %d path states", nCons, len(states))}, "every consumer of the wire stream receives all layers applied so far, encryption innermost")
 		}
 		// (d) key class
-		want, known := stackKeyClass[rname]
+		want, known := stackClassOf(p, root)
 		if !known {
 			// a builder extracted out of a tabled one (unexported, called from it): it inherits the caller's pairing
 			if robj, _ := root.Object().(*types.Func); robj != nil && !robj.Exported() {
@@ -399,7 +413,7 @@ func checkStacks(c *engine.Ctx, rule string) {
 					for gr.Parent() != nil {
 						gr = gr.Parent()
 					}
-					if cls, ok := stackKeyClass[p.FuncName(gr)]; ok {
+					if cls, ok := stackClassOf(p, gr); ok {
 						classes[cls] = true
 					} else {
 						classes["?"] = true
